@@ -12,14 +12,15 @@ CONSTANTS
   F0Neg = FALSE
   MaxSteer = 495
   SlewMax = 200
-  MaxSamples = 2
+  MaxSamples = 1
   Ghosts = TRUE
+  Readd = FALSE
   OffPos = {0, 2}
   OffNeg = {}
   LeapVals = {"none"}
   Wides = {FALSE}
   MaxChan = 2
-  Bound = 4
+  Bound = 2
   UsableVals = {TRUE, FALSE}
 INIT Init
 NEXT Next
